@@ -14,6 +14,7 @@ def run(ctx):
     RK.normalize_assigns_together(ctx, "R15.f")
     RL.reductions_never_shrink(ctx, "R15.g")
     RL.reduce_equal_length(ctx, "R15.m")
+    RK.per_word_stages_unconditional(ctx, "R15.n")
     RK.word_shape_rules(ctx, "R15.h")
     RK.class_predicates(ctx, "R15.i")
     RK.text_methods_use_chars(ctx, "R15.j")
